@@ -126,7 +126,7 @@ UNDECIDED = {
     'C13': ["the complex matchers (keywords via chomp_any_keyword, string literals, numerals, REM, DATA, identifiers) enter as ASSUMED contracts (decline without moving / consume a non-empty in-line stretch / fail without moving with an in-line position); chomp_keyword and chomp_number are checked against them by Kani for bounded input lengths (quick tier), chomp_string and chomp_remark in the thorough tier (ASCII, <= 6 bytes); the DATA matcher not at all", "character boundaries, ranges ENDING on a non-blank byte for every token kind, REM/DATA extending to the end of their text, and the re-tokenization clause (tokenizing the text of a range yields that one token) are undecided", "remaining_tokens / remaining_tokens_and_ranges (for-loops over `&mut self` as an iterator) are outside Verus; the ordering lemma is stated for two consecutive next() calls"],
     'C12': ["identifier scanning with keyword lookahead, numerals, the DATA branch of the tokenizer (String::from_utf8 of the rest of the line) and the composition in Tokenizer::next: undecided", "DATA items: decided for whitespace in front of and behind items relative to the assumed meaning of str::trim / str::parse; a parser change that uses a std method without a specification here (e.g. trim_matches with a pattern) is undecided, not detected"],
     'C06': ["statement-level agreement (assignment / FOR / NEXT / READ kind checks in statement_analyzer.rs vs statement.rs) and the converse direction need both evaluators executed: undecided", "operand parsing below the unary tier (terms, calls, array subscripts) is proved to only move the cursor forward on its line; the kinds it returns for terms are not specified", "termination of the tier loops is not claimed (exec_allows_no_decreases_clause)"],
-    'C08': ["that a REJECTED reply asks again at the very same INPUT statement (and not at a later INPUT of the line) needs a token-level specification of what an lvalue may contain (no INPUT token): not stated - a change that rewinds from further down the line is not reported", "THEN/ELSE interplay: decided as `a resumed INPUT is not left in front of an ELSE` (an ELSE reached as a statement stays UNEXPECTED TOKEN, as the suite requires for multi-statement THEN clauses)", "EXTRA IGNORED: decided (appended exactly when the accepted reply held more than one item or text behind the items); REENTER: decided for the rejected reply", "reply parsing (parse_data_until_colon, the DATA item parser): never an empty list, never more bytes than the text has, and the items are those of the spec machine (quoted reply = one item verbatim; reply without separators = its trimmed text) relative to the assumed meaning of str::trim and an uninterpreted str::parse::<f64> - WHICH texts are numbers is not decided"],
+    'C08': ["that a REJECTED reply asks again at the very same INPUT statement: decided (the cursor ends on the INPUT token the statement was dispatched from) - unit expressions proves that a successfully evaluated expression consumes no INPUT token, so the nearest INPUT in front of the parsed target is the statement's own; the link through the temporary evaluator is the assumption", "THEN/ELSE interplay: decided as `a resumed INPUT is not left in front of an ELSE` (an ELSE reached as a statement stays UNEXPECTED TOKEN, as the suite requires for multi-statement THEN clauses)", "EXTRA IGNORED: decided (appended exactly when the accepted reply held more than one item or text behind the items); REENTER: decided for the rejected reply", "reply parsing (parse_data_until_colon, the DATA item parser): never an empty list, never more bytes than the text has, and the items are those of the spec machine (quoted reply = one item verbatim; reply without separators = its trimmed text) relative to the assumed meaning of str::trim and an uninterpreted str::parse::<f64> - WHICH texts are numbers is not decided"],
     'C19': ["the page script (abasic-web/ts/main.ts) is TypeScript: its protocol is an assumption, transliterated in L_page_protocol; the start-up loader (start_evaluating per line with no error check in between) violates the adapter's precondition when a line fails - outside this check's reach", "the core side (start_evaluating / continue_evaluating / command words) is proved in unit interp_api and enters the adapter unit as stubs with the same contract text", "output record text (Display) and error text + caret: fmt, undecided"],
     'C07': ["expression evaluation (user-defined function calls included) is proved to hand the call stack back as it found it, on success and on failure (unit expressions, after normalisation N9 of the argument loop's `.enumerate()`); the statement evaluator sees the expression evaluator through the temporary-borrow link (assumed), which repeats this clause", "transparency itself (same output / input requests / outcome as the uninterrupted run) is concluded from the per-call facts - break records the location and keeps stack, loops, DATA cursor, functions; CONT restores exactly that; idle transitions keep pending reply and output - not proved as a statement about two runs", "that the host break reaches Program::break_at_current_location is proved for Interpreter::break_at_current_location; that STOP does is part of the verified dispatch in evaluate_statement"],
     'C09': ["the expression evaluator is proved to only move the cursor forward on its line (unit expressions) and enters statements through the temporary-borrow link; user-defined function calls inside expressions are outside the per-call work bound, as the property itself allows", "READ's loop over its variable list and PRINT's loop are not given a termination measure (partial correctness)"],
